@@ -330,6 +330,16 @@ fn oracle_c11(c: &Conv, rerun: bool) -> Option<String> {
             }
         }
     }
+    // the scripted bus reports an exhausted script through the bus-error channel: if more messages
+    // were sent than replies existed, the call must have ended with that error
+    if msgs.len() > c.script.len() && c.run.outcome != "starved" && c.run.outcome != "PANIC" {
+        return Some(format!(
+            "C11 the bus failed on message #{} ({}) but the controller returned {} instead of the bus error",
+            c.script.len(),
+            show_msg(&msgs[c.script.len()]),
+            c.run.outcome
+        ));
+    }
     // fail-stop (local rules) and bus errors
     for (i, m) in msgs.iter().enumerate() {
         let reply = match c.script.get(i) {
@@ -461,7 +471,8 @@ impl<'o> Explore<'o> {
                 s2.push(sym.clone());
                 let c = run_conv(op, t, a, items, &itok, &s2);
                 self.visit(&c);
-                if c.run.outcome == "starved" && recurse(&s2) {
+                // (a run that sent more messages than it had replies was starved, whatever it returned)
+                if (c.run.outcome == "starved" || c.run.msgs.len() > s2.len()) && recurse(&s2) {
                     frontier.push(s2);
                 }
             }
